@@ -410,32 +410,45 @@ func rulePREC1(c *Ctx) {
 	if f := p.Func("json.makeMethodArshaler"); f == nil || f.Body() == nil {
 		c.Undecide("json.makeMethodArshaler", "function missing")
 	} else {
-		info := f.Info()
 		var order []string
-		for _, st := range f.Body().List {
-			ifs, ok := st.(*ast.IfStmt)
-			if !ok || ifs.Init == nil {
-				continue
-			}
-			as, ok := ifs.Init.(*ast.AssignStmt)
-			if !ok || len(as.Rhs) != 1 {
-				continue
-			}
-			call, ok := ast.Unparen(as.Rhs[0]).(*ast.CallExpr)
-			if !ok || !FuncCall(info, call, "json", "implements") || len(call.Args) != 2 {
-				continue
-			}
-			if o := IdentObj(info, call.Args[1]); o != nil {
-				// which field does the block replace?
-				which := ""
-				for _, fs := range fieldStores(info, ifs.Body, false) {
-					if fs.Field.Name() == "marshal" || fs.Field.Name() == "unmarshal" {
-						which = fs.Field.Name()
+		// the installation blocks in statement order, following calls to private helpers the
+		// function may have been split into (each helper's blocks take the place of the call)
+		var collect func(g *FuncInfo, depth int)
+		collect = func(g *FuncInfo, depth int) {
+			info := g.Info()
+			for _, st := range g.Body().List {
+				ifs, ok := st.(*ast.IfStmt)
+				if !ok || ifs.Init == nil {
+					if depth < 2 {
+						for _, call := range CallsIn(st) {
+							if h := p.InlineAny(g)(call); h != nil && h.Decl != nil {
+								collect(h, depth+1)
+							}
+						}
 					}
+					continue
 				}
-				order = append(order, which+":"+o.Name())
+				as, ok := ifs.Init.(*ast.AssignStmt)
+				if !ok || len(as.Rhs) != 1 {
+					continue
+				}
+				call, ok := ast.Unparen(as.Rhs[0]).(*ast.CallExpr)
+				if !ok || !FuncCall(info, call, "json", "implements") || len(call.Args) != 2 {
+					continue
+				}
+				if o := IdentObj(info, call.Args[1]); o != nil {
+					// which field does the block replace?
+					which := ""
+					for _, fs := range fieldStores(info, ifs.Body, false) {
+						if fs.Field.Name() == "marshal" || fs.Field.Name() == "unmarshal" {
+							which = fs.Field.Name()
+						}
+					}
+					order = append(order, which+":"+o.Name())
+				}
 			}
 		}
+		collect(f, 0)
 		want := []string{"marshal:textMarshalerType", "marshal:textAppenderType", "marshal:jsonMarshalerType", "marshal:jsonMarshalerToType",
 			"unmarshal:textUnmarshalerType", "unmarshal:jsonUnmarshalerType", "unmarshal:jsonUnmarshalerFromType"}
 		var gm, gu, wm, wu []string
@@ -458,49 +471,56 @@ func rulePREC1(c *Ctx) {
 		// each wrapper falls back to the composition that existed right before it was installed:
 		// the captured `prev := fncs.marshal` lives in the same block as the closure that calls it
 		msigP, usigP := marshalerSig(p), unmarshalerSig(p)
-		for _, lit := range findAllDeep[*ast.FuncLit](f.Body()) {
-			lf := p.LitInfo(lit)
-			if lf == nil {
+		info := f.Info()
+		outerF := f
+		for _, f := range p.CalleeClosure(outerF, 2) {
+			if f.Decl == nil {
 				continue
 			}
-			if t := info.TypeOf(lit); t != nil {
-				if sg, ok := t.Underlying().(*types.Signature); !ok || !((msigP != nil && types.Identical(sg, msigP)) || (usigP != nil && types.Identical(sg, usigP))) {
+			for _, lit := range findAllDeep[*ast.FuncLit](f.Body()) {
+				lf := p.LitInfo(lit)
+				if lf == nil {
 					continue
 				}
-			}
-			litBlock := p.Parent(f.File, p.Parent(f.File, lit)) // AssignStmt -> enclosing block
-			InspectNoLit(lit.Body, func(nd ast.Node) bool {
-				call, ok := nd.(*ast.CallExpr)
-				if !ok || Callee(info, call) != nil {
-					return true
+				if t := info.TypeOf(lit); t != nil {
+					if sg, ok := t.Underlying().(*types.Signature); !ok || !((msigP != nil && types.Identical(sg, msigP)) || (usigP != nil && types.Identical(sg, usigP))) {
+						continue
+					}
 				}
-				v := IdentObj(info, call.Fun)
-				if v == nil {
-					return true
-				}
-				defs := defsOf(info, f.Body(), v)
-				if len(defs) != 1 {
-					return true
-				}
-				if fld := SelField(info, defs[0]); fld == nil || (fld.Name() != "marshal" && fld.Name() != "unmarshal") {
-					return true
-				}
-				// the definition statement's block
-				var defStmt ast.Node
-				ast.Inspect(f.Body(), func(m ast.Node) bool {
-					if as, ok := m.(*ast.AssignStmt); ok {
-						for i, l := range as.Lhs {
-							if IdentObj(info, l) == v && as.Tok == token.DEFINE && i < len(as.Rhs) {
-								defStmt = as
+				litBlock := p.Parent(f.File, p.Parent(f.File, lit)) // AssignStmt -> enclosing block
+				InspectNoLit(lit.Body, func(nd ast.Node) bool {
+					call, ok := nd.(*ast.CallExpr)
+					if !ok || Callee(info, call) != nil {
+						return true
+					}
+					v := IdentObj(info, call.Fun)
+					if v == nil {
+						return true
+					}
+					defs := defsOf(info, f.Body(), v)
+					if len(defs) != 1 {
+						return true
+					}
+					if fld := SelField(info, defs[0]); fld == nil || (fld.Name() != "marshal" && fld.Name() != "unmarshal") {
+						return true
+					}
+					// the definition statement's block
+					var defStmt ast.Node
+					ast.Inspect(f.Body(), func(m ast.Node) bool {
+						if as, ok := m.(*ast.AssignStmt); ok {
+							for i, l := range as.Lhs {
+								if IdentObj(info, l) == v && as.Tok == token.DEFINE && i < len(as.Rhs) {
+									defStmt = as
+								}
 							}
 						}
-					}
+						return true
+					})
+					sameBlock := defStmt != nil && p.Parent(f.File, defStmt) == litBlock
+					c.Oblige("fallback-to-previous:"+lf.Name, call.Pos(), sameBlock, "the wrapper falls back to `"+v.Name()+"`, which was not captured right before this wrapper was installed: declining with ErrUnsupported would skip the lower-priority methods")
 					return true
 				})
-				sameBlock := defStmt != nil && p.Parent(f.File, defStmt) == litBlock
-				c.Oblige("fallback-to-previous:"+lf.Name, call.Pos(), sameBlock, "the wrapper falls back to `"+v.Name()+"`, which was not captured right before this wrapper was installed: declining with ErrUnsupported would skip the lower-priority methods")
-				return true
-			})
+			}
 		}
 		// early return for pointer and interface kinds
 		early := false
@@ -536,56 +556,96 @@ func rulePREC1(c *Ctx) {
 	if f := p.Func("json.(*typedArshalers).lookup"); f == nil || f.Body() == nil {
 		c.Undecide("json.(*typedArshalers).lookup", "function missing")
 	} else {
-		info := f.Info()
 		okScan, okFallback := false, false
-		for _, rs := range findAll[*ast.RangeStmt](f.Body()) {
-			if fld := SelField(info, rs.X); fld != nil && fld.Name() == "fncVals" {
-				// break under !maySkip, castableTo filter with continue
-				hasBreak := false
-				for _, ifs := range findAll[*ast.IfStmt](rs.Body) {
-					if u, ok := ast.Unparen(ifs.Cond).(*ast.UnaryExpr); ok && u.Op == token.NOT {
-						if fl := SelField(info, u.X); fl != nil && fl.Name() == "maySkip" {
-							for _, b := range findAll[*ast.BranchStmt](ifs.Body) {
-								if b.Tok == token.BREAK {
-									hasBreak = true
+		lookupF := f
+		scope := p.CalleeClosure(lookupF, 2)
+		for _, f := range scope {
+			if f.Decl == nil {
+				continue
+			}
+			info := f.Info()
+			for _, rs := range findAll[*ast.RangeStmt](f.Body()) {
+				if fld := SelField(info, rs.X); fld != nil && fld.Name() == "fncVals" {
+					// break under !maySkip, castableTo filter with continue
+					hasBreak := false
+					for _, ifs := range findAll[*ast.IfStmt](rs.Body) {
+						if u, ok := ast.Unparen(ifs.Cond).(*ast.UnaryExpr); ok && u.Op == token.NOT {
+							if fl := SelField(info, u.X); fl != nil && fl.Name() == "maySkip" {
+								for _, b := range findAll[*ast.BranchStmt](ifs.Body) {
+									if b.Tok == token.BREAK {
+										hasBreak = true
+									}
 								}
 							}
 						}
 					}
-				}
-				okScan = hasBreak
-			}
-		}
-		for _, lit := range findAllDeep[*ast.FuncLit](f.Body()) {
-			// for _, fnc := range fncs { if err := fnc(...); !errors.Is(err, ErrUnsupported) { return err } }; return fncDefault(...)
-			hasLoop := false
-			for _, rs := range findAll[*ast.RangeStmt](lit.Body) {
-				for _, ifs := range findAll[*ast.IfStmt](rs.Body) {
-					neg := false
-					if u, ok := ast.Unparen(ifs.Cond).(*ast.UnaryExpr); ok && u.Op == token.NOT {
-						if cl, ok := ast.Unparen(u.X).(*ast.CallExpr); ok && FuncCall(info, cl, "errors", "Is") {
-							neg = true
-						}
-					}
-					if neg && len(findAll[*ast.ReturnStmt](ifs.Body)) > 0 {
-						hasLoop = true
-					}
+					okScan = okScan || hasBreak
 				}
 			}
-			last := lit.Body.List[len(lit.Body.List)-1]
-			if r, ok := last.(*ast.ReturnStmt); ok && hasLoop && len(r.Results) == 1 {
-				if cl, ok := ast.Unparen(r.Results[0]).(*ast.CallExpr); ok {
-					if v := IdentObj(info, cl.Fun); v != nil {
-						// fncDefault := fnc (the parameter)
-						for _, d := range defsOf(info, f.Body(), v) {
-							if pv, _ := IdentObj(info, d).(*types.Var); pv != nil {
-								sig := f.Obj.Type().(*types.Signature)
-								if sig.Params().Len() > 0 && sig.Params().At(0) == pv {
-									okFallback = true
-								}
+			for _, lit := range findAllDeep[*ast.FuncLit](f.Body()) {
+				// for _, fnc := range fncs { if err := fnc(...); !errors.Is(err, ErrUnsupported) { return err } }; return fncDefault(...)
+				hasLoop := false
+				for _, rs := range findAll[*ast.RangeStmt](lit.Body) {
+					for _, ifs := range findAll[*ast.IfStmt](rs.Body) {
+						neg := false
+						if u, ok := ast.Unparen(ifs.Cond).(*ast.UnaryExpr); ok && u.Op == token.NOT {
+							if cl, ok := ast.Unparen(u.X).(*ast.CallExpr); ok && FuncCall(info, cl, "errors", "Is") {
+								neg = true
 							}
 						}
+						if neg && len(findAll[*ast.ReturnStmt](ifs.Body)) > 0 {
+							hasLoop = true
+						}
 					}
+				}
+				if len(lit.Body.List) == 0 {
+					continue
+				}
+				last := lit.Body.List[len(lit.Body.List)-1]
+				r, ok := last.(*ast.ReturnStmt)
+				if !ok || !hasLoop || len(r.Results) != 1 {
+					continue
+				}
+				cl, ok := ast.Unparen(r.Results[0]).(*ast.CallExpr)
+				if !ok {
+					continue
+				}
+				v := IdentObj(info, cl.Fun)
+				if v == nil || f.Obj == nil {
+					continue
+				}
+				// the fallback is the default arshaler handed to lookup: lookup's own first parameter
+				// (directly or through a local), or — in a helper — the helper parameter that receives it
+				isLookupParam := func(g *FuncInfo, e ast.Expr) bool {
+					o := IdentObj(g.Info(), e)
+					gs := g.Obj.Type().(*types.Signature)
+					if gs.Params().Len() > 0 && gs.Params().At(0) == o {
+						return true
+					}
+					for _, d := range defsOf(g.Info(), g.Body(), o) {
+						if pv, _ := IdentObj(g.Info(), d).(*types.Var); pv != nil && gs.Params().Len() > 0 && gs.Params().At(0) == pv {
+							return true
+						}
+					}
+					return false
+				}
+				if f == lookupF {
+					if isLookupParam(f, cl.Fun) {
+						okFallback = true
+					}
+					continue
+				}
+				sig := f.Obj.Type().(*types.Signature)
+				for i := 0; i < sig.Params().Len(); i++ {
+					if sig.Params().At(i) != v {
+						continue
+					}
+					InspectNoLit(lookupF.Body(), func(nd ast.Node) bool {
+						if call, ok := nd.(*ast.CallExpr); ok && Callee(lookupF.Info(), call) == f.Obj && i < len(call.Args) && isLookupParam(lookupF, call.Args[i]) {
+							okFallback = true
+						}
+						return true
+					})
 				}
 			}
 		}
